@@ -366,6 +366,22 @@ async def session(ctx, case, fault, transport, position, frag):
                 await conn.send(text, frag=frag)
                 cpu = time.thread_time() - cpu0
                 if cpu > 1.5:
+                    # a blow-up caused by the message repeats when the same message is sent again; a collector pass or a descheduled
+                    # virtual CPU booked on this interval does not: the verdict is the smallest of three measurements
+                    import gc
+                    was = gc.isenabled()
+                    gc.disable()
+                    try:
+                        for _ in range(2):
+                            c0 = time.thread_time()
+                            await conn.send(text, frag=frag)
+                            cpu = min(cpu, time.thread_time() - c0)
+                    finally:
+                        if was:
+                            gc.enable()
+                    if cpu <= 1.5:
+                        ctx.count("cpu_time_readings_above_the_limit_that_did_not_repeat")
+                if cpu > 1.5:
                     # CPU time of the event-loop thread for one message of a few hundred bytes: the whole server was blocked that long
                     ctx.violate(f"hostile-message-blocks-the-event-loop:{label.split('>')[0]}",
                                 f"{label}: handling this {len(text)}-character message used {cpu:.1f} s of CPU time in the event-loop thread", case, {"xml": text[:300]})
